@@ -251,18 +251,23 @@ fn render_attr(it: &Value) -> Vec<String> {
     vec![text]
 }
 
+/// the program of a case of MC_Rules
+pub fn render(case: &Value) -> Option<Vec<String>> {
+    let it = &case["item"];
+    Some(match case["fam"].as_str().unwrap_or("") {
+        "members" => render_members(it),
+        "enums" => render_enum(it),
+        "keys" => render_key(it),
+        "stream" => render_stream(it),
+        "names" => render_names(it),
+        "attrs" => render_attr(it),
+        _ => return None,
+    })
+}
+
 impl Family for Rules {
     fn run(&mut self, case: &Value) -> Outcome {
-        let it = &case["item"];
-        let fam = case["fam"].as_str().unwrap_or("");
-        let texts = match fam {
-            "members" => render_members(it),
-            "enums" => render_enum(it),
-            "keys" => render_key(it),
-            "stream" => render_stream(it),
-            "names" => render_names(it),
-            _ => render_attr(it),
-        };
+        let texts = render(case).unwrap_or_default();
         let refs: Vec<&str> = texts.iter().map(|s| s.as_str()).collect();
         let rendered = json!({"files": texts});
         let key = hash_str(&rendered.to_string());
